@@ -313,9 +313,9 @@ def run(ck: Check):
     # fault enumeration: one fault at every group-request ordinal of a two-member base run in which the
     # second member's arrival forces the first one to re-join (JoinGroup / SyncGroup / Heartbeat / ... of a
     # member that already holds an assignment)
-    def base(sid, plan):
+    def base(sid, plan, auto_commit=True):
         mk = lambda name, delay: {"name": name, "group": "g", "topics": ["t0"], "assignors": ["range"],  # noqa: E731
-                                  "auto_commit": True, "auto_commit_interval_ms": 300, "cb_delay": 0.01, "_stays": True,
+                                  "auto_commit": auto_commit, "auto_commit_interval_ms": 300, "cb_delay": 0.01, "_stays": True,
                                   "program": [["sleep", delay], ["start"], ["consume", 4.0, 0.1, None, 0],
                                               ["consume", quiet + 4.0, 0.1, None, 0], ["stop"]]}
         return {"id": sid, "seed": 7, "brokers": 1, "topics": {"t0": 4}, "preload": {"t0": {"0": 3, "1": 3, "2": 0, "3": 0}},
@@ -326,13 +326,16 @@ def run(ck: Check):
     if b0.get("ok"):
         t0 = min(e["t"] for e in b0["trace"])
         nreq = sum(1 for e in b0["trace"] if e["ev"] == "request" and e["api"] in conssim.GROUP_APIS and e["t"] - t0 < 4.0)
-    kinds = ["drop_before", "no_reply"] if not ck.thorough else ["drop_before", "no_reply", "drop_after", "error:27", "error:16", "error:25"]
+    kinds = ["drop_before", "no_reply", "error:16", "error:25"] if not ck.thorough else \
+        ["drop_before", "no_reply", "drop_after", "error:27", "error:16", "error:15", "error:25", "error:22"]
     fe = 0
     for k in range(1, min(nreq, ck.n(45, 90)) + 1):
         for kind in kinds:
             f = {"kind": "error", "code": int(kind.split(":")[1])} if kind.startswith("error") else {"kind": kind}
-            scs.append(base(f"fe-{k}-{kind}", {str(k): f}))
-            fe += 1
+            # without auto-commit nothing but the heartbeat tells a member that it fell out of the group
+            for ac in ((True, False) if kind.startswith("error") else (True,)):
+                scs.append(base(f"fe-{k}-{kind}-{int(ac)}", {str(k): f}, auto_commit=ac))
+                fe += 1
     ck.extra["fault_enumeration_runs"] = fe
     results = conssim.run_scenarios(scs, timeout=ck.n(900, 3000))
     nbad = 0
@@ -341,6 +344,16 @@ def run(ck: Check):
         if not r.get("ok"):
             hist["failed_runs"] += 1
             ck.obligation(f"correspondence:simulation-ran:{sc['id']}", False, (r.get("error", "") + r.get("tb", ""))[-400:])
+            if "SimDeadlock" in r.get("error", "") and any(c.get("_stays") for c in sc["consumers"]):
+                # the programs (consume ... stop) did not finish in 600 s of virtual time although the environment
+                # went quiet after a few seconds: a live member is stuck (e.g. getmany() blocked behind a
+                # rebalance that never completes) - the group does not converge.  The scenario is the replay.
+                stuck = [x for x in r.get("stacks", []) if "actor" in x or "getmany" in x or "getone" in x]
+                ck.violation(f"a live member never finishes its program after the environment went quiet: the run "
+                             f"exceeded the virtual time limit with the application blocked at {stuck[:2]} "
+                             f"(scenario {sc['id']})",
+                             {"scenario": sc, "error": r.get("error"), "stacks": r.get("stacks", [])[:12]},
+                             signature="sim:a live member is blocked forever after the environment went quiet")
             continue
         hist["with_live_members"] += any(c.get("_stays") for c in sc["consumers"])
         nbad += monitor_convergence(ck, sc, r, quiet)
